@@ -229,3 +229,22 @@ def forms(i0: int, i1: int, n: int, form: int) -> bool:
         if not why(got == base, name, "differs on document form", form, got, base):
             return ok(False)
     return ok(True)
+
+
+def reuse(l0: LT, l1: LT2, l2: int, n: int, ck1: int, ck2: int, edit: bool) -> bool:
+    """One compiled query awaited twice on ONE document object - under another filter context, and after an in-place edit of
+    the document - still answers like the synchronous call at that moment.
+
+    pre: 0 <= n <= MAXN
+    pre: small(l0, l1)
+    post: _
+    """
+    doc = spines.build(SPINE, [l0, l1, l2, ck1, l0, l1], n, [True, True, True])
+    c1, c2 = {"k": ck1, "a": "a"}, {"k": ck2, "a": "a"}
+    first = drive(alist(drive(COMPILED.finditer_async(doc, filter_context=c1))))
+    if not _same(list(COMPILED.finditer(doc, filter_context=c1)), first):
+        return ok(False)
+    if edit and isinstance(doc, list) and doc and isinstance(doc[0], dict):
+        doc[0]["a"] = ck2
+    second = drive(alist(drive(COMPILED.finditer_async(doc, filter_context=c2))))
+    return ok(why(_same(list(COMPILED.finditer(doc, filter_context=c2)), second), "second await on the same document object", QTEXT))
